@@ -61,6 +61,15 @@ Lemma lprint_elif ind c th rest : lprint ind (JLElif c th rest)
   = [CText t_else; CText t_if_open] ++ jprint c ++ [CText t_op_mid1; CText t_brace_nl] ++ bprint (S ind) th
     ++ sp_ind ind ++ [CText t_rbrace] ++ lprint ind rest.
 Proof. reflexivity. Qed.
+Lemma sprint_plural ind v cs : sprint ind (JSPlural v cs)
+  = sp_ind ind ++ [CText t_switch_open] ++ jprint v ++ [CText t_for_close; CText t_nl] ++ kprint_nb (S ind) cs
+    ++ sp_ind ind ++ [CText t_rbrace; CText t_nl].
+Proof. reflexivity. Qed.
+Lemma kprint_nb_default ind b : kprint_nb ind (JKDefault b) = sp_ind ind ++ [CText t_default; CText t_nl] ++ bprint (S ind) b.
+Proof. reflexivity. Qed.
+Lemma kprint_nb_case ind v vs b rest : kprint_nb ind (JKCase v vs b rest)
+  = jk_values ind (v :: vs) ++ bprint (S ind) b ++ sp_ind (S ind) ++ [CText t_break; CText t_nl] ++ kprint_nb ind rest.
+Proof. reflexivity. Qed.
 Lemma kprint_default ind b : kprint ind (JKDefault b)
   = sp_ind ind ++ [CText t_default; CText t_nl] ++ bprint (S ind) b ++ sp_ind (S ind) ++ [CText t_break; CText t_nl].
 Proof. reflexivity. Qed.
@@ -83,6 +92,9 @@ Lemma bwf_cons lv s r : bwf lv (BCons s r) = swf lv s && bwf lv r. Proof. reflex
 Lemma ewf_else lv b : ewf lv (EElse b) = bwf lv b. Proof. reflexivity. Qed.
 Lemma ewf_elif lv c th rest : ewf lv (EElif c th rest) = cwf lv c && bwf lv th && ewf lv rest. Proof. reflexivity. Qed.
 Lemma kwf_default lv b : kwf lv (KDefault b) = bwf lv b. Proof. reflexivity. Qed.
+Lemma swf_msgpl lv pn v q : swf lv (SMsgPl pn v q) = cwf lv v && qwf lv q. Proof. reflexivity. Qed.
+Lemma qwf_dflt lv b : qwf lv (QDflt b) = msg_ok b && bwf lv b. Proof. reflexivity. Qed.
+Lemma qwf_case lv z b r : qwf lv (QCase z b r) = msg_ok b && bwf lv b && qwf lv r. Proof. reflexivity. Qed.
 Lemma kwf_case lv v vs b rest : kwf lv (KCase v vs b rest) = cwf lv v && forallb (cwf lv) vs && bwf lv b && kwf lv rest. Proof. reflexivity. Qed.
 
 Lemma lvok_push lv sc : lvok lv sc -> lvok lv ([] :: sc).
@@ -262,6 +274,39 @@ Definition GQ_p (ps : cparams) : Prop := forall lv F st jps n' i bf a sc n first
   exists stf, jcall_params (jwalk o F) first (pnodes ps) acc st = Ok (acc ++ jps_print first (jp_args jps), stf)
               /\ j_out stf = rev (pprint i jps) ++ j_out st /\ shape stf i bf a sc n'
               /\ (c04_imp_free o -> j_called stf = j_called st).
+(* the clauses of a plural: visitMsgNode's loop over the cases, then the default clause, in front of any rest *)
+Definition c04_plgo (W : list node -> J unit) : list node -> J unit :=
+  fix go (cs : list node) : J unit := match cs with [] => jret tt | c :: cr => plural_case_body W c ;;; go cr end.
+Fixpoint c04_qlen (q : cplur) : nat :=
+  match q with QDflt b => length (mnodes b) | QCase _ b r => Nat.max (length (mnodes b)) (c04_qlen r) end.
+Definition GQ_q (q : cplur) : Prop := forall lv f F st jk n' i bf a sc n (rest : J unit) crest i2 b2 a2 s2 k2,
+  (qdepth q <= F)%nat -> (c04_qlen q < f)%nat -> sc <> [] -> lvok lv sc -> qwf lv q = true -> shape st i bf a sc n -> qgen a bf sc n q = (jk, n') ->
+  (forall y, shape y i bf a sc n' -> gres rest y crest i2 b2 a2 s2 k2) ->
+  gres (c04_plgo (jmsg_children (jwalk o F) f) (qcnodes q) ;;;
+        jsln [CText t_default] ;;; indent_inc ;;; jmsg_children (jwalk o F) f (qdnodes q) ;;; indent_dec ;;; rest)
+       st (kprint_nb i jk ++ crest) i2 b2 a2 s2 k2.
+Lemma gres_assoc (m k r : J unit) st cs i b a s n :
+  gres (m ;;; (k ;;; r)) st cs i b a s n -> gres ((m ;;; k) ;;; r) st cs i b a s n.
+Proof.
+  intros (stf & E & R). exists stf. split; [|exact R]. rewrite <- E. unfold jbind. destruct (m st) as [[u st1]| | | | |]; reflexivity.
+Qed.
+
+(* the budget visitMsgNode's loop gets covers every case body *)
+Definition c04_gosum : list node -> nat :=
+  fix go (l : list node) : nat := match l with [] => 0%nat | x :: r => (nmsg_size x + go r)%nat end.
+Lemma c04_gosum_cons x r : c04_gosum (x :: r) = (nmsg_size x + c04_gosum r)%nat. Proof. reflexivity. Qed.
+Lemma c04_nmsg_plural p vn v cases dflt : nmsg_size (NMsgPlural p vn v cases dflt) = (4 + c04_gosum cases + c04_gosum dflt)%nat.
+Proof. reflexivity. Qed.
+Lemma c04_nmsg_case p z bd : nmsg_size (NMsgPluralCase p z bd) = (3 + c04_gosum bd)%nat.
+Proof. reflexivity. Qed.
+Lemma c04_gosum_mnodes b : c04_gosum (mnodes b) = length (mnodes b).
+Proof. induction b as [|s r IH]; [reflexivity|]. cbn [mnodes c04_gosum length]. fold c04_gosum. rewrite IH. destruct s; reflexivity. Qed.
+Lemma c04_qlen_gosum q : (c04_qlen q < 4 + c04_gosum (qcnodes q) + c04_gosum (qdnodes q) + 0)%nat.
+Proof.
+  induction q as [b|z b r IH].
+  - rewrite qcnodes_dflt, qdnodes_dflt, c04_gosum_mnodes. cbn [c04_qlen]. lia.
+  - rewrite qcnodes_case, qdnodes_case, c04_gosum_cons, c04_nmsg_case, c04_gosum_mnodes. cbn [c04_qlen]. lia.
+Qed.
 
 Lemma sgen_scope mode buf sc n s j sc' n' : sgen mode buf sc n s = (j, (sc', n')) -> sc <> [] -> tl sc' = tl sc /\ sc' <> [].
 Proof.
@@ -376,7 +421,18 @@ Proof.
   destruct s; try discriminate Hs; apply Hstep; reflexivity.
 Qed.
 
-Theorem sgen_print_all : (forall s, GQ_s s) /\ (forall b, GQ_b b) /\ (forall e, GQ_e e) /\ (forall k, GQ_k k) /\ (forall ps, GQ_p ps).
+(* one body of a plural: visitMsgNode's loop over raw text and placeholders = the statements, one after the other *)
+Lemma gen_qbody b lv f F st i bf a sc n jb n1 : GQ_b b ->
+  msg_ok b = true -> bwf lv b = true -> (bdepth b <= F)%nat -> (length (mnodes b) < f)%nat ->
+  sc <> [] -> lvok lv sc -> shape st i bf a sc n -> bgen a bf sc n b = (jb, n1) ->
+  gres (jmsg_children (jwalk o F) f (mnodes b)) st (bprint i jb) i bf a sc n1.
+Proof.
+  intros Hb Hm Hw Hd Hl Hn Hlv Hs Eb.
+  destruct (Hb lv F st jb n1 i bf a sc n Hd Hn Hlv Hw Hs Eb) as (sc' & _ & Hsame & G).
+  rewrite (Hsame Hm) in G. destruct G as (z3 & E3 & R3). exists z3. rewrite (gen_msg_children (jwalk o F) b Hm f st Hl). split; [exact E3|exact R3].
+Qed.
+
+Theorem sgen_print_all : (forall s, GQ_s s) /\ (forall b, GQ_b b) /\ (forall e, GQ_e e) /\ (forall k, GQ_k k) /\ (forall ps, GQ_p ps) /\ (forall q, GQ_q q).
 Proof.
   apply cstmt_mutind.
   - (* raw *) intros t lv f st j sc' n' i bf a sc n Hf Hn Hlv Hwf Hs Eg. rewrite sgen_raw in Eg. inversion Eg; subst. clear Eg.
@@ -643,6 +699,25 @@ Proof.
     destruct (IHb lv F st1 jb n' i bf a sc' n ltac:(lia) Hn Hlv Hwb H1 E1) as (sc2 & _ & Hsame & (stf & Ef & Of & Hf' & Cf)).
     exists stf. rewrite (gen_msg_children (jwalk o F) body Hm) by (rewrite (msg_size_mnodes body Hm); lia).
     split; [exact Ef|]. split; [exact Of|]. rewrite <- (Hsame Hm). split; [exact Hf'|exact Cf].
+  - (* msg with a plural *) intros pn v q IHq lv f st j sc' n' i bf a sc n Hf Hn Hlv Hwf Hs Eg. rewrite sgen_msgpl in Eg.
+    destruct (qgen a bf sc n q) as [jk n1] eqn:E1. inversion Eg; subst. clear Eg.
+    rewrite swf_msgpl in Hwf. apply andb_prop in Hwf. destruct Hwf as [Hwv Hwq].
+    rewrite sdepth_msgpl in Hf. destruct f as [|F]; [lia|]. rewrite snode_msgpl, sprint_plural.
+    eapply gres_walk; [reflexivity|exact Hs|]. intros st1 H1. cbn [jwalk_node]. unfold visit_msg. rewrite HNB.
+    set (k := (4 + c04_gosum (qcnodes q) + c04_gosum (qdnodes q) + 0)%nat).
+    assert (Hsz : msg_size [NMsgPlural 0 pn (cnode v) (qcnodes q) (qdnodes q)] = S k) by reflexivity.
+    assert (Hk : (c04_qlen q < k)%nat) by (subst k; apply c04_qlen_gosum).
+    rewrite Hsz. clearbody k. cbn [jmsg_children].
+    eapply gres_eq.
+    + gbind z0 Z0.
+      { gbind x1 X1. apply gres_indent; exact H1. gbind x2 X2. apply gres_txt; exact X1.
+        gbind x3 X3. apply (gres_expr v lv F x2); [lia|exact Hwv|exact Hlv|exact X2].
+        gbind x4 X4. apply gres_emit; exact X3. gbind x5 X5. apply gres_inc; exact X4.
+        apply (IHq lv k F x5 jk n' (S i) bf a sc' n (indent_dec ;;; jsln [CText t_rbrace]) (sp_ind i ++ [CText t_rbrace] ++ [CText t_nl]) i bf a sc' n');
+          [lia|exact Hk|exact Hn|exact Hlv|exact Hwq|exact X5|exact E1|].
+        intros y Hy. eapply gres_eq; [gbind y1 Y1; [apply gres_dec; exact Hy|apply gres_sln; exact Y1]|reflexivity]. }
+      destruct k as [|k']; [lia|]. cbn [jmsg_children]. apply gres_ret; exact Z0.
+    + chunks_eq.
   - (* BNil *) intros lv f st jb n' i bf a sc n Hf Hn Hlv Hwf Hs Eg. rewrite bgen_nil in Eg. inversion Eg; subst.
     exists sc. split; [reflexivity|]. split; [reflexivity|]. apply gres_ret; exact Hs.
   - (* BCons *) intros s IHs r IHr lv f st jb n' i bf a sc n Hf Hn Hlv Hwf Hs Eg. rewrite bgen_cons in Eg. rewrite bdepth_cons in Hf.
@@ -733,5 +808,26 @@ Proof.
     exists stf. split; [|split; [|split; [exact Hf'|intro HF; rewrite (Cf HF); transitivity (j_called x2); [reflexivity|rewrite (Cx2 HF), (Cx1 HF); reflexivity]]]].
     + rewrite Ef. f_equal. f_equal. cbn [jp_args jps_print jprint]. destruct first; repeat rewrite <- app_assoc; reflexivity.
     + rewrite Of, Ox3, Ox2, Ox1, O2, pprint_cont. rewrite !rev_app_distr. repeat rewrite <- app_assoc. reflexivity.
+  - (* QDflt *) intros b IHb lv f F st jk n' i bf a sc n rest crest i2 b2 a2 s2 k2 Hd Hl Hn Hlv Hwf Hs Eg Hrest. rewrite qgen_dflt in Eg.
+    destruct (bgen a bf sc n b) as [jb n1] eqn:E1. inversion Eg; subst. clear Eg.
+    rewrite qwf_dflt in Hwf. apply andb_prop in Hwf. destruct Hwf as [Hm Hwb]. rewrite qdepth_dflt in Hd. cbn [c04_qlen] in Hl.
+    rewrite qcnodes_dflt, qdnodes_dflt, kprint_nb_default. cbn [c04_plgo].
+    eapply gres_eq.
+    + gbind x0 X0. apply gres_ret; exact Hs. gbind x1 X1. apply gres_sln; exact X0. gbind x2 X2. apply gres_inc; exact X1.
+      gbind x3 X3. apply (gen_qbody b lv f F x2 (S i) bf a sc n jb n' IHb Hm Hwb Hd Hl Hn Hlv X2 E1).
+      gbind x4 X4. apply gres_dec; exact X3. apply Hrest; exact X4.
+    + chunks_eq.
+  - (* QCase *) intros z b IHb r IHr lv f F st jk n' i bf a sc n rest crest i2 b2 a2 s2 k2 Hd Hl Hn Hlv Hwf Hs Eg Hrest. rewrite qgen_case in Eg.
+    destruct (bgen a bf sc n b) as [jb n1] eqn:E1. destruct (qgen a bf sc n1 r) as [jr n2] eqn:E2. inversion Eg; subst. clear Eg.
+    rewrite qwf_case in Hwf. apply andb_prop in Hwf. destruct Hwf as [Hwf Hwr]. apply andb_prop in Hwf. destruct Hwf as [Hm Hwb].
+    rewrite qdepth_case in Hd. cbn [c04_qlen] in Hl.
+    rewrite qcnodes_case, qdnodes_case, kprint_nb_case. cbn [c04_plgo]. fold (c04_plgo (jmsg_children (jwalk o F) f)).
+    apply gres_assoc. eapply gres_eq.
+    + gbind x1 X1.
+      { unfold plural_case_body. gbind y1 Y1. apply gres_sln; exact Hs. gbind y2 Y2. apply gres_inc; exact Y1.
+        gbind y3 Y3. apply (gen_qbody b lv f F y2 (S i) bf a sc n jb n1 IHb Hm Hwb ltac:(lia) ltac:(lia) Hn Hlv Y2 E1).
+        gbind y4 Y4. apply gres_sln; exact Y3. apply gres_dec; exact Y4. }
+      apply (IHr lv f F x1 jr n' i bf a sc n1 rest crest i2 b2 a2 s2 k2); [lia|lia|exact Hn|exact Hlv|exact Hwr|exact X1|exact E2|exact Hrest].
+    + cbn [jk_values jprint]. chunks_eq.
 Qed.
 End StmtChunks.
